@@ -30,6 +30,9 @@ static size_t ref_len(uint8_t *ref) {
 
 void harness(void) {
     VERIF_INPUTS();
+#ifdef TV_HAS_FIX
+    tv_fix(&in.v);   /* concrete value: only the fault schedule stays symbolic */
+#endif
     TYPE_T val; struct tv_store store;
 #ifdef MODE_ILLFORMED
     ASSUME(tv_wellformed(&in.v));
